@@ -176,13 +176,14 @@ def run(ctx):
                 "step, integer pick, pickle, copy, deepcopy} then one of to_pandas / iter_row_groups(categories?) / head(n at every "
                 "row-group boundary +-1) / count / len with columns None|subset in any order|repeated|empty|unknown and index "
                 "default|False|one available name (stored or partition column). Every dataset carries a tz-aware datetime column t (also used as written/explicit index) and, "
-                "besides the random programs, a fixed state-roundtrip stream (to_pandas / iter / head through pickle, copy, deepcopy); three fixed "
+                "besides the random programs, a fixed state-roundtrip stream (to_pandas / iter / head through pickle, copy, deepcopy); two fixed datasets have a NAMED, stepped range index (stored in the pandas metadata only), three fixed "
                 "datasets hold tz-aware, ordered-categorical, nullable, text and ms/ns datetime columns. Confirmation stream (known finding): two index names. "
                 "trivial = no handle operation and to_pandas() without arguments; distinct = distinct (dataset spec, program)")
     jobs = []
     # fixed corner datasets first, then random ones
     corners = [{"nrg": 3, "scheme": "simple", "rich": True, "index": "t"}, {"nrg": 2, "scheme": "hive", "rich": True, "part": ["p"]},
-               {"nrg": 4, "scheme": "simple", "rich": True},
+               {"nrg": 4, "scheme": "simple", "rich": True}, {"nrg": 3, "scheme": "simple", "index": "rix"},
+               {"nrg": 2, "scheme": "hive", "index": "rix"},
                {"nrg": 0, "scheme": "simple"}, {"nrg": 0, "scheme": "hive"}, {"nrg": 1, "scheme": "simple"},
                {"nrg": 3, "scheme": "hive", "part": ["p"]}, {"nrg": 6, "scheme": "simple"}, {"nrg": 2, "scheme": "hive", "part": ["p", "q"]}]
     for i in range(nds):
